@@ -419,6 +419,52 @@ def definite_failure(model, fi, node, kind):
     return None
 
 
+def witnessed_failure(model, fi, node):
+    """An index site in a function of one text argument (a start() predicate, a scanner helper): the string
+    constants its own guards compare the text with give candidate lines - the guard's text alone, as a line -
+    and the function is folded on each; a candidate on which this very subscript raises establishes the failure."""
+    from ..interp import Interp, Oracle, Raised
+    params = fi.params()
+    if fi.cls is not None and fi.kind in ('method', 'classmethod') and fi.parent is None:
+        params = params[1:]
+    if len(params) != 1 or fi.parent is not None:
+        return None
+    consts = []
+    tests = [t for t, pol in guards_at(node, fi.node)]
+    cur = node
+    while cur is not None and cur is not fi.node:
+        par = getattr(cur, '_parent', None)
+        if isinstance(par, ast.BoolOp) and isinstance(par.op, ast.And) and cur in par.values:
+            tests += par.values[:par.values.index(cur)]      # operands evaluated (true) before this one
+        cur = par
+    for test in tests:
+        for n in ast.walk(test):
+            if isinstance(n, ast.Call) and isinstance(n.func, ast.Attribute) and n.func.attr in ('startswith', 'endswith') and n.args:
+                a = n.args[0]
+                vals = [a] if isinstance(a, ast.Constant) else list(a.elts) if isinstance(a, ast.Tuple) else []
+                consts += [v.value for v in vals if isinstance(v, ast.Constant) and isinstance(v.value, str)]
+            if isinstance(n, ast.Compare) and len(n.ops) == 1 and isinstance(n.ops[0], (ast.Eq, ast.In)):
+                for side in [n.left] + n.comparators:
+                    if isinstance(side, ast.Constant) and isinstance(side.value, str):
+                        consts.append(side.value)
+    for c in consts:
+        for line in (c + '\n', ' ' + c + '\n', c + ' \n'):
+            it = Interp(model)
+            it.reset_run(Oracle())
+            try:
+                if fi.cls is not None:
+                    it.call(it.getattr(fi.cls, fi.name), [line], {})
+                else:
+                    it.call(fi, [line], {})
+            except Raised as r:
+                where = getattr(r, 'node', None)
+                if r.exc.kind == 'IndexError' and (where is None or where is node or getattr(where, 'lineno', None) == node.lineno):
+                    return 'on the line %r the guards hold and the subscript raises IndexError' % line, line
+            except Exception:
+                continue
+    return None
+
+
 def rule_idx(ctx, rep):
     model = ctx.model
     rep.rule('R-IDX', 'no partial operation in the parser is shown to fail; sites are discharged by a recognised guard idiom or a reviewed argument whose backing invariant is re-decided, the rest are listed as undecided')
@@ -489,8 +535,13 @@ def rule_idx(ctx, rep):
                                      'the audited site %s in %s relies on an invariant that no longer holds: %s'
                                      % (_txt(site)[:60], fi.short, bad), loc(unit, site))
             definite = None
+            witness_line = None
             if how is None:
                 definite = definite_failure(model, fi, node, kind)
+            if how is None and definite is None and kind == 'index':
+                hit = witnessed_failure(model, fi, node)
+                if hit is not None:
+                    definite, witness_line = hit
             if how is None and definite is None:
                 # Not decided: neither a recognised guard nor a reviewed argument covers this site, and nothing
                 # shows that it fails. It is listed in the evidence and is not an obligation of this rule -
@@ -504,7 +555,7 @@ def rule_idx(ctx, rep):
             if how is None:
                 rep.find('R-IDX', fi.short, '%s:%s' % (kind, text),
                          'partial operation %s (%s) in %s fails: %s' % (_txt(site)[:80], kind, fi.short, definite), loc(unit, site),
-                         witness=_txt(site if kind != 'unpack' else node.value))
+                         witness=witness_line or _txt(site if kind != 'unpack' else node.value))
     rep.extra['idx_discharge_counts'] = by_how
     rep.extra['idx_undecided_sites'] = undecided
     rep.floor('R-IDX', n, 60)
